@@ -126,6 +126,13 @@ def nested_fanout():
     return prog([fn("na", ["e0"], ["a0"]), gnode("inner", inner), fn("nd", ["e0"], ["d0"]), fn("ne", ["b0", "c0", "d0"], ["f0"])])
 
 
+def two_nested():
+    """Two sibling graph nodes running in the same step (span parenting under concurrency)."""
+    ga = prog([fn("a1", ["x"], ["pa"]), fn("a2", ["pa"], ["qa"])], name="ga")
+    gb = prog([fn("b1", ["x"], ["pb"]), fn("b2", ["pb"], ["qb"])], name="gb")
+    return prog([gnode("ga", ga), gnode("gb", gb), fn("jn", ["qa", "qb"], ["j0"])])
+
+
 def nested_depth(depth=2):
     p = prog([fn("leaf1", ["x"], ["y"]), fn("leaf2", ["x"], ["z"])], name="lvl0")
     for d in range(1, depth + 1):
